@@ -320,6 +320,10 @@ func (s *Storage) SetUserinfoWithUserID(ctx context.Context, appID string, useri
 	s.mu.Lock()
 	defer s.mu.Unlock()
 	if err := s.fault("SetUserinfoWithUserID", appID, userID); err != nil {
+		// a realistic storage error names the account it failed on
+		if u, ok := s.Users[userID]; ok {
+			return fmt.Errorf("%w: account %q <%s> is locked", err, u.Username, u.Email)
+		}
 		return err
 	}
 	u, ok := s.Users[userID]
@@ -333,6 +337,9 @@ func (s *Storage) SetUserinfoWithLoginName(ctx context.Context, userinfo models.
 	s.mu.Lock()
 	defer s.mu.Unlock()
 	if err := s.fault("SetUserinfoWithLoginName", loginName); err != nil {
+		if u, ok := s.Users[loginName]; ok {
+			return fmt.Errorf("%w: account %q <%s> is locked", err, u.Username, u.Email)
+		}
 		return err
 	}
 	u, ok := s.Users[loginName]
@@ -364,6 +371,7 @@ type IdpCfg struct {
 	Contact      *provider.ContactPerson
 	TimeFormat   string
 	ForwardedHdr []string
+	MetaIDP      *provider.MetadataIDPConfig
 }
 
 func defaultIdpCfg() IdpCfg {
@@ -373,7 +381,7 @@ func defaultIdpCfg() IdpCfg {
 func newProvider(st *Storage, c IdpCfg) (*provider.Provider, error) {
 	conf := &provider.Config{
 		IDPConfig: &provider.IdentityProviderConfig{SignatureAlgorithm: c.SigAlg, WantAuthRequestsSigned: c.WantSigned,
-			EncryptionAlgorithm: c.EncAlg, Endpoints: c.Endpoints},
+			EncryptionAlgorithm: c.EncAlg, Endpoints: c.Endpoints, MetadataIDPConfig: c.MetaIDP},
 		Metadata: c.MetadataEP, Organisation: c.Org, ContactPerson: c.Contact,
 	}
 	if c.MetaSigAlg != "" {
